@@ -443,6 +443,9 @@ fn xfer<A, E, T: Bytes<A, E = E>>(t: &T, addr: A, s: &mut Stream, count: usize, 
 
 fn exec_own(case: &[Tok]) -> Vec<Tok> {
     fdscript::self_test();
+    fdscript::watched(|| exec_own_inner(case))
+}
+fn exec_own_inner(case: &[Tok]) -> Vec<Tok> {
     let target = case[1].u();
     let lay: Vec<u64> = case[2].l().iter().map(|x| *x as u64).collect();
     let mem0 = case[3].bytes();
